@@ -300,7 +300,7 @@ def _update_local_references(rules):
     counter = ex.SymbolCounter()
 
     def previsit(node):
-        if node.defines_local and counter.is_bound(node.name):
+        if node.defines_local and counter.is_variable(node.name):
             node.shadows = True
         counter.previsit(node)
         if node.is_reference and counter.is_bound(node.name):
